@@ -2,7 +2,8 @@
    dimensions in the sense of DirLen.dir_len (initialize may depend on the state it finds: I0 = as constructed, Iv = as a previous inner
    solve left it), and its instances for the two shipped providers AlmPanocDirProofs.v does not cover:
      AndersonDirection            (memory >= 1; every min_div_fac, rescale_on_step_size_changes; the provider as constructed)
-     StructuredLBFGSDirection     (memory >= 1, the capability checks of initialize, CBFGS off; every other parameter, any state d0).
+     StructuredLBFGSDirection     (NO hypothesis: every parameter, any state d0 — memory < 1, a failing capability check of initialize
+                                   and CBFGS make a provider call throw, and a run in which a call throws has no result).
    The world threaded through the outer loop is (cumulative counters, provider); its invariant is "the provider is sane" (I0 or Iv):
    an inner solve that ends before its first `initialize` (NotFinite, or an exit at k = 0) hands the provider on untouched, every other
    one hands on a provider satisfying Iv (PanocDirLenW.panocDW_out_dir).  Generic lemma: AlmComposeKktW.compose_converged_is_kkt_W. *)
@@ -179,9 +180,6 @@ Section Shipped.
   Theorem alm_panoc_struclbfgs_converged_is_kkt pw (LP : Lbfgs.params R) slb sub sl1 Dlb Dub
       prov_inactive prov_hess_L prov_hess_psi prov_box_D prov_grad_gi
       grad_psi_at hess_L_prod hess_psi_prod eval_g grad_gi cbrt_eps hvf fd full_aug use_scaled :
-    (1 <= p_memory LP)%nat ->
-    struct_init_ok prov_inactive prov_hess_L prov_hess_psi prov_box_D prov_grad_gi hvf fd full_aug = true ->
-    cbfgs_on LP = false ->
     forall (d0 : sdstate (T:=R)) outer_fuel nanv Σ0 y0 x0 co,
     length x0 = n -> length y0 = m ->
     Alm.p_max_iter AP <> 0%nat ->
@@ -194,12 +192,12 @@ Section Shipped.
     f_status (co_final co) = Converged ->
     kkt_point Pb Clb Cub n m (p_tol AP) (p_dual_tol AP) (co_x co) (f_y (co_final co)).
   Proof.
-    intros H1 H2 H3 d0 outer_fuel nanv Σ0 y0 x0 co.
+    intros d0 outer_fuel nanv Σ0 y0 x0 co.
     exact (alm_panoc_dirlen_converged_is_kkt Pb prov wm_supplied Clb Cub l1 split (sdstate (T:=R)) _
              stop_req time_up outer_oot PP AP ls_fuel inner_fuel n m Hprov Hempty Hl1 Hcrit HLg HL HClb HCub HCne Hgf Hgg Hg HDlb HDub HDne
              (fun _ => True) (SIv n LP)
-             (struct_len n pw LP slb sub sl1 Dlb Dub prov_inactive prov_hess_L prov_hess_psi prov_box_D prov_grad_gi
-                         grad_psi_at hess_L_prod hess_psi_prod eval_g grad_gi cbrt_eps hvf fd full_aug use_scaled H1 H2 H3)
+             (struct_len_all n pw LP slb sub sl1 Dlb Dub prov_inactive prov_hess_L prov_hess_psi prov_box_D prov_grad_gi
+                             grad_psi_at hess_L_prod hess_psi_prod eval_g grad_gi cbrt_eps hvf fd full_aug use_scaled)
              d0 outer_fuel nanv Σ0 y0 x0 co (or_introl I)).
   Qed.
 End Shipped.
